@@ -4,12 +4,14 @@
 
 package exporter
 
+import "sync/atomic"
+
 // VerifSetSeqNumber places the sequence counter so that the 2^32 wrap is reachable.
 func (ep *ExportingProcess) VerifSetSeqNumber(n uint32) {
-	ep.seqNumber = n
+	atomic.StoreUint32(&ep.seqNumber, n)
 }
 
 // VerifSeqNumber reads the sequence counter.
 func (ep *ExportingProcess) VerifSeqNumber() uint32 {
-	return ep.seqNumber
+	return atomic.LoadUint32(&ep.seqNumber)
 }
